@@ -52,6 +52,7 @@ STUB = ['event loop + clock', 'TCP', 'executor', 'adversarial SFTP responder',
         'raw SFTP requester', 'in-memory SFTPServer subclass']
 PROBES = ['pop_client', 'pop_server', 'pop_attrs', 'replies_reordered',
           'bad_reply_unknown_id', 'bad_reply_dup_id', 'bad_reply_wrong_type',
+          'bad_reply_short_body', 'bad_reply_extra_body',
           'malformed_request', 'unsupported_request', 'errno_mapped',
           'v3', 'v4', 'v5', 'v6']
 
@@ -100,8 +101,9 @@ def gen_plan(rng):
         plan['ops'] = [rng.choice(['stat', 'stat', 'read', 'realpath'])
                        for _ in range(plan['k'])]
         plan['reorder'] = rng.chance(85)
-        plan['bad'] = rng.weighted([(None, 60), ('unknown_id', 14),
-                                    ('dup_id', 13), ('wrong_type', 13)])
+        plan['bad'] = rng.weighted([(None, 50), ('unknown_id', 12),
+                                    ('dup_id', 12), ('wrong_type', 12),
+                                    ('short_body', 8), ('extra_body', 6)])
         plan['bad_at'] = rng.below(plan['k'] + 3)
     elif pop == 'server':
         reqs = []
